@@ -45,6 +45,7 @@ def demo_build_cmd(demo_path, wt):
     cmd = m.group(1).strip()
     cmd = re.sub(r"/tmp/wt-[A-Za-z0-9]+", wt, cmd)
     cmd = cmd.replace("WT/", wt + "/").replace("$WT", wt).replace("${WT}", wt)
+    cmd = re.sub(r"/tmp/out-[A-Za-z0-9]+/m\d+/demo\.cpp", demo_path, cmd)
     cmd = re.sub(r"(?<![\w/.-])demo\.cpp", demo_path, cmd)
     cmd = re.sub(r"-o\s+\S+", "-o " + os.path.join(wt, "_demo_bin"), cmd)
     return cmd
@@ -150,7 +151,7 @@ def run(ids, checks=None):
     # evidence files must describe the unchanged tree: the caller re-runs the checks afterwards
 
 
-def table():
+def table(update_design=False):
     rows = []
     for d in sorted(glob.glob(os.path.join(SEEDED, "*"))):
         if not os.path.exists(os.path.join(d, "meta.json")):
@@ -158,16 +159,31 @@ def table():
         meta = json.load(open(os.path.join(d, "meta.json")))
         res = json.load(open(os.path.join(d, "result.json"))) if os.path.exists(os.path.join(d, "result.json")) else {"checks": {}}
         caught = [p for p, r in res["checks"].items() if r.get("caught")]
-        missed = [p for p, r in res["checks"].items() if not r.get("caught")]
+        silent = [p for p, r in res["checks"].items() if not r.get("caught")]
+        silent = [("**%s MISSED**" % p) if p == meta.get("property") else p for p in silent]
         first = ""
-        for p in caught:
-            v = res["checks"][p].get("violations") or [""]
-            first = v[0].replace("violation: ", "")[:110]
-            break
-        rows.append("| %s | %s | %s | %s | %s | %s |" % (os.path.basename(d), meta.get("property"), meta.get("summary", "")[:150].replace("|", "/").replace("\n", " "),
-                                                   "yes" if meta.get("confirmed", {}).get("ok") else "no", ", ".join(caught) or "-", ", ".join(missed) or "-"))
-    print("| id | breaks | change | confirmed | caught by | run but missed |\n|---|---|---|---|---|---|")
-    print("\n".join(rows))
+        own = res["checks"].get(meta.get("property"), {})
+        if own.get("violations"):
+            first = own["violations"][0].replace("violation: ", "").split(" -- ")[0][:90]
+
+        def clean(t, n):
+            t = (t or "").replace("|", "/").replace("\n", " ")
+            return t[:n] + ("…" if len(t) > n else "")
+        rows.append("| %s | %s | %s | %s | %s | %s | %s | %s |" % (os.path.basename(d), meta.get("property"), clean(meta.get("summary"), 170), clean(meta.get("needs"), 150),
+                                                             "yes" if meta.get("confirmed", {}).get("ok") else "no", ", ".join(caught) or "-", first or "-", ", ".join(silent) or "-"))
+    txt = "| id | written for | change | needs | confirmed | caught by | first finding of its own check | other checks run, silent |\n|---|---|---|---|---|---|---|---|\n" + "\n".join(rows)
+    if update_design:
+        dp = os.path.join(VERIF, "DESIGN.md")
+        s = open(dp).read()
+        B, E = "<!-- SEEDED-TABLE-BEGIN -->", "<!-- SEEDED-TABLE-END -->"
+        if B in s:
+            s = s[:s.index(B) + len(B)] + "\n" + txt + "\n" + s[s.index(E):]
+        else:
+            s = s.replace("SEEDED_TABLE_PLACEHOLDER", B + "\n" + txt + "\n" + E)
+        open(dp, "w").write(s)
+        print("DESIGN.md table updated (%d rows)" % len(rows))
+    else:
+        print(txt)
 
 
 if __name__ == "__main__":
@@ -197,4 +213,4 @@ if __name__ == "__main__":
                 meta = json.load(open(os.path.join(d, "meta.json")))
                 run([os.path.basename(d)], meta.get("checks_to_run") or [meta["property"]])
     elif a[0] == "table":
-        table()
+        table("--update-design" in a)
